@@ -227,3 +227,33 @@ def register(reg):
         ],
         raises={"TypeError": "etag is not None and data is not None"},
     )
+    _register_parse_range(reg)
+
+
+def _replay_parse_range(reg, c, inputs):
+    """the pieces of str.split are abstract in the model: replay on the model's text and on a corpus of Range headers"""
+    from pyvc import runtime
+    fn = runtime.resolve_real("werkzeug/http.py:parse_range_header")
+    nc = runtime.NativeContract(reg, c)
+    corpus = [inputs.get("value"), None, "", "bytes", "bytes=", "bytes=0-0", "bytes=5-4", "bytes=5-5", "bytes=-0", "bytes=-5", "bytes=0-",
+              "bytes=1-2,0-1", "bytes=0-1,1-2", "bytes=0-1, 5-", "bytes=0-,5-6", "bytes=-5,0-1", "bytes=a-b", "bytes=-", "bytes=--1",
+              "bytes= 1 - 2 ", "x=1-1", "=0-0", "bytes=1-1,1-1", "bytes=00-01"]
+    for v in corpus:
+        fails = nc.check_call(fn, [v], {}, {"value": v})
+        if fails:
+            return [f"(header text {v!r}) " + f for f in fails]
+    return []
+
+
+def _register_parse_range(reg):
+    """parse_range_header: total, and what it hands to Range() is always a valid, ascending, non-overlapping list"""
+    reg.contract(
+        "werkzeug/http.py:parse_range_header", prop="C11,C07", params={"value": "Optional[str]"}, modifies=[],
+        inline_callees=["werkzeug/datastructures/range.py:Range.__init__"], replay=_replay_parse_range,
+        ensures=["True"],
+        raises={},        # in particular: the ValueError of Range.__init__ (invalid range) never escapes
+        loops={0: {"types": {"ranges": "List[Tuple[int, Optional[int]]]", "item": "str", "begin": "int", "end": "Optional[int]"},
+                   "inv": ["forall(0, len(ranges), lambda i: range_ok(ranges[i][0], ranges[i][1]))",
+                           "last_end >= -1"],
+                   "modifies": ["last_end"]}},
+    )
